@@ -771,7 +771,7 @@ def gen_mix_program(rng, path, nprocs, fmt=None, hints='-', focus=None, cancel_r
     dims = [('d%d' % i, rng.range(5, 10) if i == 0 else rng.range(3, 8)) for i in range(nd)]
     if focus == 'burst':
         nd = rng.range(2, 3)
-        dims = [('d%d' % i, rng.range(12, 18) if i == 0 else rng.range(8, 12)) for i in range(nd)]
+        dims = [('d%d' % i, rng.range(36, 48) if i == 0 else (rng.range(12, 16) if i == 1 else rng.range(2, 3))) for i in range(nd)]
     hasrec = rng.chance(1, 2) or focus == 'recvarn'
     types = XT_ALL if fmt == 5 else XT_CLASSIC
     types = [t for t in types if t != 'char']
@@ -830,7 +830,7 @@ def gen_mix_program(rng, path, nprocs, fmt=None, hints='-', focus=None, cancel_r
             # attached-buffer occupancy table must grow while requests are pending
             allc = region_cells([0] * len(shape), shape, [1] * len(shape))
             per = rng.range(130, min(300, len(allc) // nprocs))
-            kind = rng.choice(['bput', 'iput'])
+            kind = rng.choice(['bput', 'bput', 'iput'])
             cellvals = {}
             if kind == 'bput':
                 p.all('attach 65536')
